@@ -10,13 +10,22 @@ Open Scope N_scope.
 Definition EncFixed (m : nat) (v : N * tree * list ctrl) (bs : list byte) : Prop :=
   exists env, WfMsg env v /\ BerEnc env bs /\ (tdepth env <= S m)%nat.
 
+(* a well-formed message (its id in 0 .. 2^31-1) passes the repaired envelope reader unchanged *)
+Lemma envelope'_wf m env view : WfMsg env view -> exists tags, env = C Universal 16 tags /\ envelope' (repaired_d m) tags = COk view.
+Proof.
+  intros [ib op Hop Hid|ib op cts cs Hop Hid Hcs]; eexists; (split; [reflexivity|]); unfold envelope'; cbn [rev app fix2 fix4 fix30 repaired_d].
+  - unfold op_ok in Hop. unfold class_eqb. rewrite Hop. cbn. rewrite Hid. reflexivity.
+  - cbn. rewrite (parse_controls'_agrees true _ _ (parse_controls_wf _ _ Hcs)). cbn. rewrite Hid. reflexivity.
+Qed.
 Theorem c06_exact_consumption_fixed m v bs rest :
   EncFixed m v bs -> decode_inner' (repaired_d m) (bs ++ rest) = view_frame v rest.
 Proof.
-  intros (env & Hw & He & Hd). pose proof (c06_exact_consumption env v bs rest Hw He) as H.
-  destruct v as [[mid op] cs]. cbn [view_frame] in *. apply decode_agrees; [exact H|].
-  intros t r Hp. rewrite (proj1 any_encoding_parses _ _ He (S (length (bs ++ rest))) rest) in Hp by (rewrite app_length; lia).
-  injection Hp as <- _. exact Hd.
+  intros (env & Hw & He & Hd). destruct (envelope'_wf m _ _ Hw) as (tags & -> & Henv).
+  pose proof (BerEnc_nonempty _ _ He) as Hne.
+  unfold decode_inner'. destruct (bs ++ rest) as [|x xs] eqn:E; [destruct bs; [congruence|discriminate]|]. rewrite <- E.
+  assert (Hp : parse_tag (S (length (bs ++ rest))) (bs ++ rest) = POk (C Universal 16 tags, rest)) by (apply (proj1 any_encoding_parses _ _ He); rewrite app_length; lia).
+  cbn [pf repaired_d]. rewrite (c11_repairs_reject_nothing_valid m _ _ _ _ Hp Hd).
+  change (16 =? 16) with true. cbn match. rewrite Henv. destruct v as [[mid op] cs]. reflexivity.
 Qed.
 
 Theorem c06_prefix_needs_more_fixed m v bs p q :
